@@ -140,6 +140,7 @@ impl<C: Autocomplete + Help> FaultModel<C> {
         }
         let mut n = n;
         n.term = ff.term.clone(); // the screen after a fault is unspecified and not part of the key
+        n.pend = ff.pend;
         n.term.lfs = 0;
         (if v.is_empty() { Some(n) } else { None }, v)
     }
